@@ -38,6 +38,7 @@ import (
 	"github.com/mgtv-tech/redis-GunYu/verifshim/mc"
 	"github.com/mgtv-tech/redis-GunYu/verifshim/redisd"
 	"github.com/mgtv-tech/redis-GunYu/verifshim/ref"
+	"github.com/mgtv-tech/redis-GunYu/verifshim/vsel"
 )
 
 func init() { verifChecks["C04"] = runC04 }
@@ -70,6 +71,13 @@ type c04Scenario struct {
 	// damage under back-pressure
 	Tail  int  `json:"tail,omitempty"`  // > 0: the variant comes from the tail family (only the last Tail covered bytes / last 40 lengths are damaged)
 	Eager bool `json:"eager,omitempty"` // the target answers at once (keeps up with the parser); default: no request is processed before everything else is blocked
+	// preemption family
+	Preempt bool     `json:"preempt,omitempty"` // built with the yield transform: Plan names the wake-up statements at which the running goroutine steps aside
+	Plan    []string `json:"plan,omitempty"`
+	// cancellation placed at a wake-up statement instead of before a target request: the goroutine that
+	// reaches CancelPoint ("<file:line>#<k>") cancels the replay context and then steps aside (CancelPoint is
+	// also the only element of Plan), so that every other goroutine reacts to the cancellation first
+	CancelPoint string `json:"cancel_point,omitempty"`
 }
 
 // ---------------------------------------------------------------------------
@@ -151,6 +159,25 @@ func c04FaultSnapshots() []rdbScenario {
 	b := rdbScenario{Version: 9, Aux: true, ChunkAt: 64, Keys: []rdbKeySpec{
 		c04Key("k1", "string/short", e("raw")),
 		c04Key("big", "chunk/h/6", e("table")),
+		c04Key("k3", "set/small", e("table")),
+	}}
+	return []rdbScenario{a, b}
+}
+
+// c04PreemptSnapshots: small snapshots for the preemption family - three keys of different
+// types in two databases (RESTORE path), and a string, a hash split into two chunks and a set
+// (expansion path).
+func c04PreemptSnapshots() []rdbScenario {
+	e := func(kind string) ref.RDBEnc { return ref.RDBEnc{Kind: kind} }
+	a := rdbScenario{Version: 11, Keys: []rdbKeySpec{
+		c04Key("k1", "string/short", e("raw")),
+		c04Key("k2", "hash/small", e("listpack")),
+		{DB: 3, Key: "k3", Case: "list/small", Enc: ref.RDBEnc{Kind: "quicklist2", Node: 2}, Exp: "future", Idle: -1, Freq: -1},
+		c04Key("k4", "zset/small", e("listpack")),
+	}}
+	b := rdbScenario{Version: 9, ChunkAt: 64, Keys: []rdbKeySpec{
+		c04Key("k1", "string/short", e("raw")),
+		c04Key("big", "chunk/h/4", e("table")),
 		c04Key("k3", "set/small", e("table")),
 	}}
 	return []rdbScenario{a, b}
@@ -535,8 +562,42 @@ func c04CpWritten(log []*redisd.Req) bool {
 }
 
 func c04Exec(t *testing.T, scn c04Scenario, ch *mc.Chooser) mc.Result {
-	var res mc.Result
+	res, _, _ := c04ExecPlan(t, scn, ch)
+	return res
+}
+
+// c04ExecPlan is c04Exec that also reports the preemption points reached and hit.
+func c04ExecPlan(t *testing.T, scn c04Scenario, ch *mc.Chooser) (res mc.Result, seen, hit []string) {
 	msg := bubble(t, func() {
+		var pre *preemptCtl
+		var cancelAtPoint func()
+		if scn.Preempt {
+			pre = installPreempt(scn.Plan)
+			defer pre.remove()
+			defer func() { seen, hit = pre.seen, pre.hit }()
+			if scn.CancelPoint != "" {
+				// wrap the controller's yielder: count arrivals the same way and cancel at the planned one
+				var mu sync.Mutex
+				counts := map[string]int{}
+				inner := vsel.CurrentYielder()
+				vsel.SetYielder(func(site string) {
+					mu.Lock()
+					armed := pre.armed
+					var fire bool
+					if armed {
+						counts[site]++
+						fire = fmt.Sprintf("%s#%d", site, counts[site]) == scn.CancelPoint
+					}
+					mu.Unlock()
+					if fire && cancelAtPoint != nil {
+						cancelAtPoint()
+					}
+					if inner != nil {
+						inner(site)
+					}
+				})
+			}
+		}
 		time.Sleep(1234567 * time.Microsecond)
 		if time.Now().UnixMilli() != c04Now {
 			res = mc.Result{Verdict: "machinery", Clause: fmt.Sprintf("bubble clock is %d, expected %d", time.Now().UnixMilli(), c04Now)}
@@ -547,7 +608,7 @@ func c04Exec(t *testing.T, scn c04Scenario, ch *mc.Chooser) mc.Result {
 			res = mc.Result{Verdict: "machinery", Clause: "generator: " + err.Error()}
 			return
 		}
-		hooks := &rdbHooks{}
+		hooks := &rdbHooks{Preempt: pre}
 		if scn.Mode == "damage" {
 			hooks.MaxReq = c04MaxReq
 			hooks.NoPark = scn.Eager
@@ -570,6 +631,8 @@ func c04Exec(t *testing.T, scn c04Scenario, ch *mc.Chooser) mc.Result {
 			hooks.Prepare = func(srv *redisd.Server) {
 				srv.PlanRef().FailAt = map[int]string{scn.FailAt: "ERR injected target error"}
 			}
+		case "cancel-at-point":
+			hooks.OnStart = func(c context.CancelFunc) { cancelAtPoint = c }
 		case "cancel":
 			var cancel context.CancelFunc
 			hooks.OnStart = func(c context.CancelFunc) { cancel = c }
@@ -578,7 +641,7 @@ func c04Exec(t *testing.T, scn c04Scenario, ch *mc.Chooser) mc.Result {
 					cancel()
 				}
 			}
-			if scn.Cfg.Parallel == 1 && ch != nil {
+			if scn.Cfg.Parallel == 1 && ch != nil && !scn.Preempt {
 				var mu sync.Mutex
 				n := 0
 				hooks.Picker = func(site string, ready []int) int {
@@ -593,7 +656,15 @@ func c04Exec(t *testing.T, scn c04Scenario, ch *mc.Chooser) mc.Result {
 			}
 		}
 		out := rdbRun(scn.rdbScenario, built, ch, hooks)
-		res = c04Oracle(scn, built, out, damaged)
+		if scn.Mode == "clean" {
+			// no fault: the full-sync oracle (a preemption must not make a valid replay fail, hang or lose a key)
+			res = rdbOracle("C04:clean", scn.rdbScenario, built, out)
+			if res.Verdict == "ok" && scn.Cfg.Resume && !c04CpWritten(out.Srv.ExecLog()) {
+				res = mc.Violation("a complete replay did not record the snapshot offset", "C04:clean:no-checkpoint", map[string]interface{}{"target_log": rdbTail(rdbReqStrings(out.Srv.ExecLog()), 30)})
+			}
+		} else {
+			res = c04Oracle(scn, built, out, damaged)
+		}
 		out.Srv.KillConns()
 	})
 	if msg != "" {
@@ -601,11 +672,11 @@ func c04Exec(t *testing.T, scn c04Scenario, ch *mc.Chooser) mc.Result {
 			// the verdict was reached; some goroutine of the tool is left blocked for ever (for
 			// instance the parser on a pipe nobody reads any more): counted, not judged
 			c04Leaks++
-			return res
+			return res, seen, hit
 		}
-		return mc.Result{Verdict: "machinery", Clause: "bubble: " + msg}
+		return mc.Result{Verdict: "machinery", Clause: "bubble: " + msg}, seen, hit
 	}
-	return res
+	return res, seen, hit
 }
 
 var c04Leaks int64
@@ -730,6 +801,9 @@ func runC04(t *testing.T, rep *mc.Reporter) {
 	}
 	idx := 0
 	mine := func() bool { idx++; return idx%nshards == shard && !budget.Expired() }
+	// development aid: VERIF_C04_FAMILY=damage|fault|preempt restricts a run to one family
+	// (never set by bin/check; evidence is always produced from the full enumeration)
+	only := os.Getenv("VERIF_C04_FAMILY")
 
 	// ---- (a) damage
 	type dmg struct {
@@ -763,7 +837,7 @@ func runC04(t *testing.T, rep *mc.Reporter) {
 	}
 	for _, d := range plan {
 		base := d.base
-		if budget.Expired() {
+		if budget.Expired() || (only != "" && only != "damage") {
 			break
 		}
 		built, err := rdbBuild(base, c04Now)
@@ -876,7 +950,7 @@ func runC04(t *testing.T, rep *mc.Reporter) {
 	// ---- (b) target errors, (c) cancellation
 	for _, base := range c04FaultSnapshots() {
 		for _, cfg := range c04FaultConfigs(tier) {
-			if budget.Expired() {
+			if budget.Expired() || (only != "" && only != "fault") {
 				break
 			}
 			scn0 := c04Scenario{rdbScenario: base, Mode: "clean", Trunc: -1, Pos: -1, CancelAt: -1}
@@ -928,6 +1002,107 @@ func runC04(t *testing.T, rep *mc.Reporter) {
 					scn.Bound = 2
 				}
 				mc.RunScenario(rep, scn, scn.Bound, budget, func(ch *mc.Chooser) mc.Result { return c04Exec(t, scn, ch) })
+			}
+		}
+	}
+	// ---- (d) preemption family: pkg/rdb/rdb.go, syncer/output.go and syncer/bisync_rdb.go are
+	// built with the yield transform; at every wake-up statement reached (channel send/receive,
+	// chosen select case, go, close, Unlock, Done, ...) the running goroutine may step aside
+	// until every other goroutine is blocked. All placements of up to pbound preemptions, for
+	// an undisturbed replay, a target error at one entry and a cancellation while workers
+	// still hold queued entries.
+	pbound := 1
+	if tier == "thorough" {
+		pbound = 2
+	}
+	for si, base := range c04PreemptSnapshots() {
+		if only != "" && only != "preempt" {
+			break
+		}
+		for _, bi := range []bool{false, true} {
+			for _, par := range []int{1, 2, 3} {
+				for _, ps := range []int{1, 1024} {
+					type flt struct {
+						mode string
+						at   int
+					}
+					// target error at the 3rd / 5th request (connection set-up, then requests of the first
+					// entries); cancellation before the 1st / 3rd request, i.e. after the last snapshot byte
+					// was parsed (small files are parsed before the first reply) with entries still queued
+					for _, fl := range []flt{{"clean", 0}, {"target-error", 3}, {"target-error", 5}, {"cancel", 1}, {"cancel", 3}} {
+						if tier != "thorough" && ((par == 3 && ps == 1024 && si == 1) || (par == 2 && ps == 1 && bi)) {
+							continue
+						}
+						if !mine() {
+							continue
+						}
+						scn := c04Scenario{rdbScenario: base, Mode: fl.mode, Trunc: -1, Pos: -1, CancelAt: -1, Preempt: true}
+						scn.Cfg = rdbCfg{Restore: si == 0, BulkLen: c03BigBulk, Parallel: par, DbMode: "id", Resume: true, Bisync: bi, PipeSize: ps}
+						switch fl.mode {
+						case "target-error":
+							scn.FailAt = fl.at
+						case "cancel":
+							scn.CancelAt = fl.at
+						}
+						rep.Scenario()
+						explorePreempt(rep, budget, pbound, func(plan []string, res mc.Result) {
+							s := scn
+							s.Plan = plan
+							rep.Count("preemption_executions", 1)
+							rep.Exec(s, nil, res)
+						}, func(plan []string) (mc.Result, []string, []string) {
+							s := scn
+							s.Plan = plan
+							return c04ExecPlan(t, s, nil)
+						})
+					}
+				}
+			}
+		}
+	}
+	// ---- (d2) cancellation at every wake-up statement: an undisturbed run collects the points reached;
+	// then one execution per point in which the goroutine arriving there cancels the replay context and
+	// steps aside until every other goroutine has reacted
+	for si, base := range c04PreemptSnapshots() {
+		if only != "" && only != "preempt" {
+			break
+		}
+		for _, bi := range []bool{false, true} {
+			for _, par := range []int{1, 2, 3} {
+				for _, ps := range []int{1, 1024} {
+					if tier != "thorough" && par == 3 && ps == 1024 {
+						continue
+					}
+					if !mine() {
+						continue
+					}
+					scn := c04Scenario{rdbScenario: base, Mode: "clean", Trunc: -1, Pos: -1, CancelAt: -1, Preempt: true}
+					scn.Cfg = rdbCfg{Restore: si == 0, BulkLen: c03BigBulk, Parallel: par, DbMode: "id", Resume: true, Bisync: bi, PipeSize: ps}
+					rep.Scenario()
+					res, seen, _ := c04ExecPlan(t, scn, nil)
+					rep.Exec(scn, nil, res)
+					if res.Verdict != "ok" {
+						continue
+					}
+					for _, pt := range seen {
+						if budget.Expired() {
+							break
+						}
+						s2 := scn
+						s2.Mode, s2.CancelPoint, s2.Plan = "cancel-at-point", pt, []string{pt}
+						r, _, hit := c04ExecPlan(t, s2, nil)
+						if r.Verdict == "violation" {
+							if r2, _, _ := c04ExecPlan(t, s2, nil); r2.Verdict != r.Verdict || r2.Sig != r.Sig {
+								r = mc.Result{Verdict: "machinery", Clause: fmt.Sprintf("violation not reproducible with cancellation at %s: %s vs %s/%s", pt, r.Sig, r2.Verdict, r2.Sig)}
+							}
+						}
+						if len(hit) == 0 {
+							rep.Count("cancel_points_not_reached", 1)
+						}
+						rep.Count("cancel_at_point_executions", 1)
+						rep.Exec(s2, nil, r)
+					}
+				}
 			}
 		}
 	}
